@@ -153,6 +153,15 @@ CHECKS.update({
 })
 ENGINES += [{"name": EW, "path": "harness/watch_tools", "serves_properties": ["C20"], "kind_free_text": "Rust tool replaying generated file-system edit scripts against a long-lived CompilerState exactly as handle_watch_command's loop does (hook H5 categorize_and_filter_events -> update_sources -> compile -> gc), with synthesised notify events from recorded real shapes, compared with a fresh CompilerState after every step; plus real isograph_cli --watch sessions"}]
 
+CHECKS.update({
+ "C24": dict(engine=E3, level="exploration", technique="runtime monitoring: real isograph_cli on generated prefix-name / header-whitespace projects and checked-in projects; overload list, patterns and the two type-level definitions parsed from the generated iso.ts; each source literal (compiler's extraction regex, template-cooked) resolved against them in source order",
+   text="Held on N accepted programs / M iso literals: every client field, pointer and entrypoint literal has an overload in iso.ts and the first overload (source order) matching its text under the file's own Whitespace/MatchesWhitespaceAndString definitions is its own; literals whose header is not `<kw> <Type>.<field>` with one space match no overload (six listed known findings).",
+   note="No tsc offline: overload resolution = first applicable overload; the two type-level definitions are read from the file and must equal the modelled shape (else inconclusive); literals with backslash or `${` counted but not resolved.", ref="3/C24"),
+ "C27": dict(engine=E3, level="exploration", technique="runtime monitoring: generated + checked-in projects compiled by the real CLI, artifacts evaluated by node; param_type.ts / raw_response_type.ts parsed by a hand-written parser of the emitted type sub-language (pylib/ts_types.py) and compared with the generator's intent model, with the reader AST + schema (gqlref), and with the operation text + schema",
+   text="Held on N param types (P properties) and R raw response types (K keys): one property per selection named by alias or name, `| null` per level iff schema nullability, ReadonlyArray depth = list depth incl. nested lists, nesting, refinements/__typename/client fields/loadable/refetch/link/pointers typed by their convention; same keys and isFallible as the reader AST; raw response types have the key sets, nesting and wrappers of their operation; listed known findings excepted.",
+   note="Trusted: pylib/ts_types.py parser, gqlref, isogen intent model; the JS type of scalars is not checked; the printer's inline-fragment union convention is followed; only the `data` member is compared; files node's stripper rejects are left to C13.", ref="3/C27"),
+})
+
 import subprocess
 HOOK_COMMITS = [l.split()[0] for l in subprocess.run(["git", "-C", "/repo", "log", "--format=%h %s"], capture_output=True, text=True).stdout.splitlines() if "verif hook" in l]
 
